@@ -14,7 +14,7 @@ from .csrc import ExtractError
 
 # rules whose case body is translated into the IR and proved equal to the Op.step case in Peg/TieSkel.lean
 IR_RULES = ["RULE_IF", "RULE_IFNOT", "RULE_NOT", "RULE_DROP", "RULE_ONLY_TAGS", "RULE_SUB", "RULE_ACCUMULATE", "RULE_CAPTURE",
-            "RULE_POSITION", "RULE_CONSTANT", "RULE_GROUP", "RULE_NTH", "RULE_ERROR", "RULE_BETWEEN", "RULE_TO", "RULE_THRU", "RULE_TIL"]
+            "RULE_POSITION", "RULE_CONSTANT", "RULE_GROUP", "RULE_NTH", "RULE_ERROR", "RULE_BETWEEN", "RULE_TO", "RULE_THRU", "RULE_TIL", "RULE_CHOICE", "RULE_SEQUENCE"]
 
 
 class Unsupported(Exception):
@@ -88,7 +88,25 @@ class Parser:
             self.take()
             c = self.parens()
             return ('while', c, self.stmt())
-        if x in ("for", "do", "switch"):
+        if x == "for":
+            self.take()
+            hdr = self.parens()
+            parts, cur, depth = [], [], 0
+            for t in hdr:
+                if t in "([":
+                    depth += 1
+                elif t in ")]":
+                    depth -= 1
+                if t == ";" and depth == 0:
+                    parts.append(cur)
+                    cur = []
+                else:
+                    cur.append(t)
+            parts.append(cur)
+            if len(parts) != 3:
+                raise Unsupported("for header")
+            return ('for', parts[0], parts[1], parts[2], self.stmt())
+        if x in ("do", "switch"):
             raise Unsupported("loop / switch statement (%s)" % x)
         toks, depth = [], 0
         while True:
@@ -200,6 +218,7 @@ class Extract:
         self.rule = {}                # alias -> k  (s->bytecode + rule[k])
         self.oldmode = None
         self.pending_rule = None      # `rule = s->bytecode + rule[k];` waiting for `goto tail`
+        self.argsbase = {}            # `const uint32_t *args = rule + B`  -> B
         self.num = {}                 # int32_t locals -> index
         self.clamped = set()          # word aliases clamped to INT32_MAX
         self.arr = {}                 # JanetArray under construction: name -> dict(n=, cs=)
@@ -211,10 +230,23 @@ class Extract:
         e.ptr, e.cs, e.val, e.word, e.rule = dict(self.ptr), dict(self.cs), dict(self.val), dict(self.word), dict(self.rule)
         e.oldmode, e.pending_rule = self.oldmode, self.pending_rule
         e.num, e.clamped, e.posalias, e.lc = dict(self.num), set(self.clamped), dict(self.posalias), dict(self.lc)
+        e.argsbase = dict(self.argsbase)
         e.arr = {k: dict(v) for k, v in self.arr.items()}
         return e
 
     # -- expressions
+    def rule_e(self, toks):
+        """rule operand expression -> RE source"""
+        toks = unparen(toks)
+        s = " ".join(toks)
+        m = re.fullmatch(r"s -> bytecode \+ (\w+) \[ (\w+) \]", s)
+        if m and m.group(1) in self.argsbase and m.group(2) in self.num:
+            return "(.argsAt %d %d)" % (self.argsbase[m.group(1)], self.num[m.group(2)])
+        m = re.fullmatch(r"s -> bytecode \+ (\w+) \[ (\w+) - 1 \]", s)
+        if m and m.group(1) in self.argsbase and m.group(2) in self.word and m.group(2) not in self.clamped:
+            return "(.argsLast %d %d)" % (self.argsbase[m.group(1)], self.word[m.group(2)])
+        return "(.op %d)" % self.rule_k(toks)
+
     def rule_k(self, toks):
         toks = unparen(toks)
         if len(toks) == 1 and toks[0] in self.rule:
@@ -366,6 +398,12 @@ class Extract:
         m = re.fullmatch(r"(\w+) == (\w+)", s)
         if m and m.group(1) in self.ptr and m.group(2) in self.ptr:
             return ".ptrEq %d %d" % (self.ptr[m.group(1)], self.ptr[m.group(2)])
+        m = re.fullmatch(r"(\w+) == 0", s)
+        if m and m.group(1) in self.word and m.group(1) not in self.clamped:
+            return ".tagZero %d" % self.word[m.group(1)]
+        m = re.fullmatch(r"(\w+) < (\w+) - 1", s)
+        if m and m.group(1) in self.num and m.group(2) in self.word:
+            return ".numLtWordPred %d %s" % (self.num[m.group(1)], self.we([m.group(2)]))
         m = re.fullmatch(r"(\w+) (<=|>) s -> text_end", s)
         if m and m.group(1) in self.ptr:
             return ".%s %d" % ("ptrLeEnd" if m.group(2) == "<=" else "ptrGtEnd", self.ptr[m.group(1)])
@@ -457,6 +495,10 @@ class Extract:
                     self.oldmode = name
                     return [".modeSave"]
             if ty == "uint32_t" and star:
+                m2 = re.fullmatch(r"rule \+ (\d+)", rs)
+                if m2:
+                    self.argsbase[name] = int(m2.group(1))
+                    return []
                 self.rule[name] = self.rule_k(rhs)
                 return []
             if ty == "CapState" and rs == "cap_save ( s )":
@@ -478,14 +520,17 @@ class Extract:
                     args = split_args(rhs[2:-1])
                     if len(args) != 3 or args[0] != ["s"]:
                         raise Unsupported("call `%s`" % rs)
-                    k, at = self.rule_k(args[1]), self.ptr_of(args[2])
-                    return [".call %d %d %d" % (self.new_ptr(name), k, at)]
+                    re_, at = self.rule_e(args[1]), self.ptr_of(args[2])
+                    m3 = re.fullmatch(r"\(\.op (\d+)\)", re_)
+                    if m3:
+                        return [".call %d %s %d" % (self.new_ptr(name), m3.group(1), at)]
+                    return [".callE %d %s %d" % (self.new_ptr(name), re_, at)]
                 src = self.ptr_of(rhs)
                 return [".ptrCopy %d %d" % (self.new_ptr(name), src)]
             if ty is None and not star and name in self.val:
                 return [".valDef %d %s" % (self.val[name], self.vexpr(rhs))]
             if ty is None and name == "rule":
-                self.pending_rule = self.rule_k(rhs)
+                self.pending_rule = self.rule_e(rhs)
                 return []
         m = re.fullmatch(r"s -> mode = (\w+)", s)
         if m:
@@ -560,6 +605,32 @@ def conv(stmts, ex, end=".fall", loops=None):
         if end != ".cont":
             raise Unsupported("continue outside a loop")
         return ".cont"
+    if k == 'for':
+        init, cnd, inc, fbody = st[1], st[2], st[3], st[4]
+        pre = ex.simple(init)
+        inc_ir = ex.simple(inc)
+        if len(pre) != 1 or len(inc_ir) != 1 or not inc_ir[0].startswith(".numDef"):
+            raise Unsupported("for header `%s`" % " ".join(init + [";"] + cnd + [";"] + inc))
+        c = ex.cond(cnd)
+        if isinstance(c, tuple) and c[0] == 'not':
+            raise Unsupported("negated loop condition")
+        exb = ex.clone()
+
+        def no_continue(x):
+            if isinstance(x, tuple):
+                if x and x[0] == 'continue':
+                    raise Unsupported("continue inside a for loop")
+                for y in x:
+                    no_continue(y)
+            elif isinstance(x, list):
+                for y in x:
+                    no_continue(y)
+        no_continue(fbody)
+        # the body ends with the increment; `.cont` marks the end of an iteration
+        body = conv([fbody, ('simple', inc)], exb, ".cont", loops)
+        after = conv(rest, exb, end, loops)
+        loops.append((body, after))
+        return "(.seq (%s) (.loop %s LOOPBODY%d LOOPREST%d))" % (pre[0], cond_lean(c), len(loops) - 1, len(loops) - 1)
     if k == 'while':
         c = ex.cond(st[1])
         if isinstance(c, tuple) and c[0] == 'not':
@@ -588,7 +659,8 @@ def conv(stmts, ex, end=".fall", loops=None):
     if k == 'goto':
         if st[1] != "tail" or ex.pending_rule is None:
             raise Unsupported("goto %s" % st[1])
-        return "(.tail %d)" % ex.pending_rule
+        m = re.fullmatch(r"\(\.op (\d+)\)", ex.pending_rule)
+        return "(.tail %s)" % m.group(1) if m else "(.tailE %s)" % ex.pending_rule
     if k == 'if' and False:
         pass
     if k == 'if':
